@@ -58,6 +58,35 @@ fn check_linear(buf: &[u8]) {
     std::mem::forget(lin);
 }
 
+/// first query from the initial state
+fn check_linear_one(buf: &[u8]) {
+    let text = unsafe { std::str::from_utf8_unchecked(buf) };
+    let mut lin = LinearLocator::new(text);
+    let first = if starts_with_bom(buf) { 3 } else { 0 };
+    let o1 = any_offset(buf, first);
+    let l1 = lin.locate(TextSize::from(o1 as u32));
+    let (r1, c1) = ref_row_col(buf, o1);
+    assert!(l1.row.to_zero_indexed() == r1 && l1.column.to_zero_indexed() == c1);
+    kani::cover!(r1 >= 1 && c1 >= 1, "inside a later line");
+    kani::cover!(r1 == 0 && c1 >= 1, "inside the first line");
+    std::mem::forget(lin);
+}
+
+/// two monotone queries: the second starts from whatever state the first left
+fn check_linear_two(buf: &[u8]) {
+    let text = unsafe { std::str::from_utf8_unchecked(buf) };
+    let mut lin = LinearLocator::new(text);
+    let first = if starts_with_bom(buf) { 3 } else { 0 };
+    let o1 = any_offset(buf, first);
+    let o2 = any_offset(buf, o1);
+    let _ = lin.locate(TextSize::from(o1 as u32));
+    let l2 = lin.locate(TextSize::from(o2 as u32));
+    let (r2, c2) = ref_row_col(buf, o2);
+    assert!(l2.row.to_zero_indexed() == r2 && l2.column.to_zero_indexed() == c2);
+    kani::cover!(r2 >= 1 && o1 > 0, "second query on a later line after a non-trivial first one");
+    std::mem::forget(lin);
+}
+
 fn check_random(buf: &[u8]) {
     let text = unsafe { std::str::from_utf8_unchecked(buf) };
     let mut rnd = RandomLocator::new(text);
@@ -90,28 +119,42 @@ macro_rules! loc_harness {
     };
 }
 
-// @verif name=loc_linear_a3 props=C13 tier=quick features=location timeout=600 fns="LinearLocator::new,LinearLocatorState::init,LinearLocator::locate,LinearLocator::locate_only,LinearLocator::locate_inner,LinearLocatorState::new_line_start,UniversalNewlineIterator::count"
-//   bound="all texts of 3 ASCII bytes; every non-decreasing pair of offsets plus one look-ahead offset (none between CR and LF)"
+// @verif name=loc_linear1_a3 props=C13 tier=quick features=location timeout=600 fns="LinearLocator::new,LinearLocatorState::init,LinearLocator::locate,LinearLocator::locate_inner,LinearLocatorState::new_line_start,UniversalNewlineIterator::count"
+//   bound="all texts of 3 ASCII bytes; one locate() from the initial state at every boundary offset not between CR and LF"
+//   stubs="memchr::memrchr2 -> reference loop;find_newline -> reference scan (decided separately under C15);core::str::slice_error_fail -> immediate panic;core::str::count::do_count_chars -> panic (unreachable below 32 bytes)"
+//   assume="dev profile: LinearLocator's own debug self-check against LineIndex is compiled in and checked too"
+loc_harness!(loc_linear1_a3, check_linear_one, 3, 6, [1, 1, 1]);
+// @verif name=loc_linear1_b11 props=C13 tier=quick features=location timeout=600 fns="LinearLocator::new,LinearLocatorState::init,LinearLocator::locate,LinearLocator::locate_inner,LinearLocatorState::new_line_start,UniversalNewlineIterator::count"
+//   bound="all texts <BOM><ASCII><ASCII>; one locate() at every offset after the BOM"
+//   stubs="memchr::memrchr2 -> reference loop;find_newline -> reference scan (decided separately under C15);core::str::slice_error_fail -> immediate panic;core::str::count::do_count_chars -> panic (unreachable below 32 bytes)"
+//   assume="dev profile: LinearLocator's own debug self-check against LineIndex is compiled in and checked too"
+loc_harness!(loc_linear1_b11, check_linear_one, 5, 8, [13, 1, 1]);
+// @verif name=loc_linear1_1e1 props=C13 tier=quick features=location timeout=600 fns="LinearLocator::new,LinearLocatorState::init,LinearLocator::locate,LinearLocator::locate_inner,LinearLocatorState::new_line_start,UniversalNewlineIterator::count"
+//   bound="all texts <ASCII><U+00E9><ASCII>; one locate()"
+//   stubs="memchr::memrchr2 -> reference loop;find_newline -> reference scan (decided separately under C15);core::str::slice_error_fail -> immediate panic;core::str::count::do_count_chars -> panic (unreachable below 32 bytes)"
+//   assume="dev profile: LinearLocator's own debug self-check against LineIndex is compiled in and checked too"
+loc_harness!(loc_linear1_1e1, check_linear_one, 4, 7, [1, 12, 1]);
+// @verif name=loc_linear2_a3 props=C13 tier=quick features=location timeout=600 fns="LinearLocator::new,LinearLocatorState::init,LinearLocator::locate,LinearLocator::locate_inner,LinearLocatorState::new_line_start,UniversalNewlineIterator::count"
+//   bound="all texts of 3 ASCII bytes; every non-decreasing pair of offsets (second query from the state the first left)"
+//   stubs="memchr::memrchr2 -> reference loop;find_newline -> reference scan (decided separately under C15);core::str::slice_error_fail -> immediate panic;core::str::count::do_count_chars -> panic (unreachable below 32 bytes)"
+//   assume="dev profile: LinearLocator's own debug self-check against LineIndex is compiled in and checked too"
+loc_harness!(loc_linear2_a3, check_linear_two, 3, 6, [1, 1, 1]);
+// @verif name=loc_linear_a3 props=C13 tier=thorough features=location timeout=2400 fns="LinearLocator::new,LinearLocatorState::init,LinearLocator::locate,LinearLocator::locate_inner,LinearLocatorState::new_line_start,UniversalNewlineIterator::count"
+//   bound="all texts of 3 ASCII bytes; two monotone locate() calls plus a locate_only() look-ahead"
 //   stubs="memchr::memrchr2 -> reference loop;find_newline -> reference scan (decided separately under C15);core::str::slice_error_fail -> immediate panic;core::str::count::do_count_chars -> panic (unreachable below 32 bytes)"
 //   assume="dev profile: LinearLocator's own debug self-check against LineIndex is compiled in and checked too"
 loc_harness!(loc_linear_a3, check_linear, 3, 6, [1, 1, 1]);
-// @verif name=loc_linear_b11 props=C13 tier=quick features=location timeout=600 fns="LinearLocator::new,LinearLocator::locate,LinearLocator::locate_only,LinearLocator::locate_inner"
-//   bound="all texts <BOM><ASCII><ASCII>; offsets after the BOM"
-//   stubs="memchr::memrchr2 -> reference loop;find_newline -> reference scan;core::str::slice_error_fail -> immediate panic;core::str::count::do_count_chars -> panic"
-loc_harness!(loc_linear_b11, check_linear, 5, 8, [13, 1, 1]);
-// @verif name=loc_linear_1e1 props=C13 tier=quick features=location timeout=600 fns="LinearLocator::new,LinearLocator::locate,LinearLocator::locate_only,LinearLocator::locate_inner"
-//   bound="all texts <ASCII><U+00E9><ASCII>"
-//   stubs="memchr::memrchr2 -> reference loop;find_newline -> reference scan;core::str::slice_error_fail -> immediate panic;core::str::count::do_count_chars -> panic"
+// @verif name=loc_linear_1e1 props=C13 tier=thorough features=location timeout=2400 fns="LinearLocator::new,LinearLocatorState::init,LinearLocator::locate,LinearLocator::locate_inner,LinearLocatorState::new_line_start,UniversalNewlineIterator::count"
+//   bound="all texts <ASCII><U+00E9><ASCII>; two monotone locate() calls plus a look-ahead"
+//   stubs="memchr::memrchr2 -> reference loop;find_newline -> reference scan (decided separately under C15);core::str::slice_error_fail -> immediate panic;core::str::count::do_count_chars -> panic (unreachable below 32 bytes)"
+//   assume="dev profile: LinearLocator's own debug self-check against LineIndex is compiled in and checked too"
 loc_harness!(loc_linear_1e1, check_linear, 4, 7, [1, 12, 1]);
+// @verif name=loc_linear2_b11 props=C13 tier=thorough features=location timeout=2400 fns="LinearLocator::new,LinearLocatorState::init,LinearLocator::locate,LinearLocator::locate_inner,LinearLocatorState::new_line_start,UniversalNewlineIterator::count"
+//   bound="all texts <BOM><ASCII><ASCII>; every non-decreasing pair of offsets"
+//   stubs="memchr::memrchr2 -> reference loop;find_newline -> reference scan (decided separately under C15);core::str::slice_error_fail -> immediate panic;core::str::count::do_count_chars -> panic (unreachable below 32 bytes)"
+//   assume="dev profile: LinearLocator's own debug self-check against LineIndex is compiled in and checked too"
+loc_harness!(loc_linear2_b11, check_linear_two, 5, 8, [13, 1, 1]);
 // @verif name=loc_random_a4 props=C13 tier=quick features=location fns="RandomLocator::new,RandomLocator::locate,RandomLocator::locate_error,RandomLocator::to_source_code"
 //   bound="all texts of 4 ASCII bytes, every offset"
 //   stubs="core::str::slice_error_fail -> immediate panic;core::str::count::do_count_chars -> panic"
 loc_harness!(loc_random_a4, check_random, 4, 7, [1, 1, 1, 1]);
-// @verif name=loc_linear_a4 props=C13 tier=thorough features=location timeout=2400 fns="LinearLocator::locate,LinearLocator::locate_only,LinearLocator::locate_inner"
-//   bound="all texts of 4 ASCII bytes; every non-decreasing pair of offsets plus one look-ahead offset"
-//   stubs="memchr::memrchr2 -> reference loop;find_newline -> reference scan;core::str::slice_error_fail -> immediate panic;core::str::count::do_count_chars -> panic"
-loc_harness!(loc_linear_a4, check_linear, 4, 7, [1, 1, 1, 1]);
-// @verif name=loc_linear_1b1 props=C13 tier=thorough features=location timeout=2400 fns="LinearLocator::locate,LinearLocator::locate_inner"
-//   bound="all texts <ASCII><BOM><ASCII> (a BOM that is not at the start is an ordinary character)"
-//   stubs="memchr::memrchr2 -> reference loop;find_newline -> reference scan;core::str::slice_error_fail -> immediate panic;core::str::count::do_count_chars -> panic"
-loc_harness!(loc_linear_1b1, check_linear, 5, 8, [1, 13, 1]);
